@@ -12,6 +12,7 @@ EXPLANATION = (
     "(it must strip / split on ' (' before trying the socket-address grammar); (3) SERDE — Serialize and Deserialize of "
     "NetworkAddress are both derived over the same fields; (4) NO-PANIC — the parsers (from_str, from_four_words) contain no "
     "undischarged panic site (constant indexing only under a dominating length test)."
+    ' SERDE field-for-field: the derived Deserialize builds NetworkAddress directly from the decoded fields (no #[serde(try_from / from / into)] detour through hand-written code).'
 )
 NOT_DECIDED = "the four-word codec round trip over the 2^48 address space (external crate four-word-networking), e.g. 255.255.255.255:65535"
 ASSUMPTIONS = ["std SocketAddr / IpAddr FromStr accept exactly their Display output", "flows through collections are followed field-insensitively"]
